@@ -644,3 +644,199 @@ Section ServerInv.
       (destruct (negb (c_hook cfg m)); [discriminate|]);
       (destruct (c_passive cfg); [discriminate|]); apply dispatch_ok; assumption.
   Qed.
+
+  (* ---------------------------------------------------------------- transactions *)
+  Definition TInv (l : list txn) (nt : N) : Prop :=
+    (forall x, In x l -> exists n, uvarint_decode (tx_t x) = Some n /\ (n < nt)%N) /\
+    NoDup (map tx_t l).
+
+  Lemma NoDup_map_compose {A B C} (g : A -> B) (h : B -> C) l :
+    NoDup (map (fun x => h (g x)) l) -> NoDup (map g l).
+  Proof.
+    induction l as [|a l IH]; cbn [map]; intros H; [constructor|].
+    inversion H as [|? ? Hn Hd]; subst. constructor; [|apply IH; exact Hd].
+    intros Hc. apply Hn. apply in_map_iff in Hc. destruct Hc as (y & Hy & Hin).
+    apply in_map_iff. exists y. split; [rewrite Hy; reflexivity|exact Hin].
+  Qed.
+
+  Lemma NoDup_map_filter {A B} (f : A -> B) p l : NoDup (map f l) -> NoDup (map f (filter p l)).
+  Proof.
+    induction l as [|a l IH]; cbn [map filter]; intros H; [constructor|].
+    inversion H as [|? ? Hn Hd]; subst. destruct (p a); cbn [map]; [constructor|]; auto.
+    intros Hc; apply Hn. apply in_map_iff in Hc. destruct Hc as (y & Hy & Hin).
+    apply filter_In in Hin. apply in_map_iff. exists y. tauto.
+  Qed.
+
+  Lemma TxInv_TInv s : TxInv s <-> TInv (s_pending s) (s_next_t s).
+  Proof.
+    split.
+    - intros [H1 H2 _]. split; assumption.
+    - intros (H1 & H2). constructor; [exact H1|exact H2|].
+      apply (NoDup_map_compose (fun x => (tx_key x, tx_t x)) snd). exact H2.
+  Qed.
+
+  Lemma txinv_ext s s' : s_pending s' = s_pending s -> s_next_t s' = s_next_t s -> TxInv s -> TxInv s'.
+  Proof. intros Hp Hn H. apply TxInv_TInv. rewrite Hp, Hn. apply TxInv_TInv. exact H. Qed.
+
+  Lemma TInv_remove_first p l nt : TInv l nt -> TInv (remove_first p l) nt.
+  Proof.
+    intros (H1 & H2). split.
+    - intros x Hx. apply H1. eapply remove_first_In; exact Hx.
+    - apply remove_first_NoDup_map. exact H2.
+  Qed.
+
+  Lemma TInv_filter p l nt : TInv l nt -> TInv (filter p l) nt.
+  Proof.
+    intros (H1 & H2). split.
+    - intros x Hx. apply H1. apply filter_In in Hx. tauto.
+    - apply NoDup_map_filter. exact H2.
+  Qed.
+
+  Lemma TInv_mono l nt nt' : TInv l nt -> (nt <= nt')%N -> TInv l nt'.
+  Proof.
+    intros (H1 & H2) Hle. split; [|exact H2].
+    intros x Hx. destruct (H1 x Hx) as (n & Hn & Hlt). exists n. split; [exact Hn|lia].
+  Qed.
+
+  Lemma TInv_add l nt k t q n :
+    TInv l nt -> uvarint_decode t = Some n -> (nt <= n)%N -> TInv (l ++ [mkTxn k t q]) (N.succ n).
+  Proof.
+    intros (H1 & H2) Hd Hle. split.
+    - intros x Hx. apply in_app_or in Hx. destruct Hx as [Hx|[<-|[]]].
+      + destruct (H1 x Hx) as (n' & Hn' & Hlt). exists n'. split; [exact Hn'|lia].
+      + exists n. cbn [tx_t]. split; [exact Hd|lia].
+    - apply NoDup_map_app_one; [exact H2|]. cbn [tx_t]. intros Hc.
+      apply in_map_iff in Hc. destruct Hc as (x & Hx & Hin).
+      destruct (H1 x Hin) as (n' & Hn' & Hlt). rewrite Hx, Hd in Hn'. inversion Hn'. lia.
+  Qed.
+
+  Lemma txinv_init st now bl budget : TxInv (init_state Store st now bl budget).
+  Proof. constructor; cbn; [intros x []|constructor|constructor]. Qed.
+
+  Lemma txinv_step s e ch s' out : TxInv s -> step s e ch = SR Store s' out -> TxInv s'.
+  Proof.
+    intros Ht.
+    assert (Hsame : forall o, SR Store s o = SR Store s' out -> TxInv s')
+      by (intros o H; inversion H; subst; exact Ht).
+    destruct e as [src size dec|d|i p id|qid dst q a rated t|qid|a id|bl|]; unfold Server.step.
+    - (* EPacket *)
+      destruct (N.eqb size _); [apply Hsame|].
+      destruct (N.eqb (port src) 0); [apply Hsame|].
+      destruct (s_closed s); [apply Hsame|].
+      destruct (blocked _ _); [apply Hsame|].
+      destruct dec as [m|]; [|apply Hsame].
+      destruct (bytes_eqb (m_y m) s_q).
+      + destruct (handle_query s src m ch) as [s1 o| |] eqn:Hq; try discriminate.
+        intros H; inversion H; subst. apply handle_query_frame in Hq. destruct Hq as (P1 & P2 & _).
+        apply (txinv_ext s); assumption.
+      + destruct (find _ _) as [x|]; [|apply Hsame].
+        destruct (update_node _ _ _ _ _ _) as [[s2 r]|] eqn:Hu; [|discriminate].
+        apply update_node_frame in Hu. destruct Hu as (_ & U2 & _ & _ & _ & _ & U7 & _).
+        assert (TxInv s2).
+        { apply TxInv_TInv. rewrite U2, U7. cbn [with_pending Server.s_pending Server.s_next_t].
+          apply TInv_remove_first. apply TxInv_TInv. exact Ht. }
+        destruct r; try discriminate; intros H'; inversion H'; subst; assumption.
+    - (* EAdvance *)
+      intros H; inversion H; subst. apply (txinv_ext s); [reflexivity|reflexivity|exact Ht].
+    - (* EAddNode *)
+      destruct (update_node _ _ _ _ _ _) as [[s1 r]|] eqn:Hu; [|discriminate].
+      apply update_node_frame in Hu. destruct Hu as (_ & U2 & _ & _ & _ & _ & U7 & _).
+      destruct r; try discriminate; intros H'; inversion H'; subst; apply (txinv_ext s); assumption.
+    - (* EQueryStart *)
+      assert (Hbump : forall o, SR Store (with_pending Store s (s_pending s) (N.succ (s_next_t s))) o = SR Store s' out -> TxInv s').
+      { intros o H; inversion H; subst. apply TxInv_TInv. cbn [with_pending Server.s_pending Server.s_next_t].
+        apply TInv_mono with (nt := s_next_t s); [apply TxInv_TInv; exact Ht|lia]. }
+      cbv zeta.
+      destruct (s_closed s); [apply Hbump|].
+      destruct (blocked _ _); [apply Hbump|].
+      destruct (rated && _); [apply Hbump|].
+      destruct (uvarint_decode t) as [n|] eqn:Hdec; [|discriminate].
+      destruct (N.ltb n (s_next_t s)) eqn:Hlt; [discriminate|]. apply N.ltb_ge in Hlt.
+      destruct (existsb _ _); [discriminate|].
+      assert (Hadd : TInv (s_pending s ++ [mkTxn (addr_key dst) t qid]) (N.succ n))
+        by (apply TInv_add with (nt := s_next_t s); [apply TxInv_TInv; exact Ht|exact Hdec|exact Hlt]).
+      destruct rated.
+      + cbn [with_pending Server.s_budget]. destruct (s_budget s) as [[|b]|]; [apply Hbump| |];
+          intros H; inversion H; subst; apply TxInv_TInv; exact Hadd.
+      + intros H; inversion H; subst; apply TxInv_TInv; exact Hadd.
+    - (* EQueryEnd *)
+      destruct (existsb _ _); [|apply Hsame].
+      intros H; inversion H; subst. apply TxInv_TInv. cbn [with_pending Server.s_pending Server.s_next_t].
+      apply TInv_filter. apply TxInv_TInv. exact Ht.
+    - (* EFailedPing *)
+      destruct (update_node _ _ _ _ _ _) as [[s1 r]|] eqn:Hu; [|discriminate].
+      apply update_node_frame in Hu. destruct Hu as (_ & U2 & _ & _ & _ & _ & U7 & _).
+      intros H'; inversion H'; subst; apply (txinv_ext s); assumption.
+    - intros H; inversion H; subst. apply (txinv_ext s); [reflexivity|reflexivity|exact Ht].
+    - intros H; inversion H; subst. apply (txinv_ext s); [reflexivity|reflexivity|exact Ht].
+  Qed.
+
+  Theorem txinv_reachable s : reachable s -> TxInv s.
+  Proof.
+    induction 1 as [st now bl budget|s e ch s' out _ IH _ Hs]; [apply txinv_init|].
+    eapply txinv_step; eassumption.
+  Qed.
+
+  (* ---------------------------------------------------------------- Inv is inductive *)
+  Lemma inv_init st now bl budget : Inv (init_state Store st now bl budget).
+  Proof.
+    constructor; cbn [init_state Server.s_nodes Server.s_index bucket filter map length].
+    - intros n [].
+    - intros i. lia.
+    - constructor.
+    - intros n [].
+    - reflexivity.
+    - intros n [].
+  Qed.
+
+  Lemma inv_step s e ch s' out :
+    wf_cfg -> Inv s -> wf_event e -> step s e ch = SR Store s' out -> Inv s'.
+  Proof.
+    intros Hc Hi Hwf.
+    assert (Hsame : forall o, SR Store s o = SR Store s' out -> Inv s')
+      by (intros o H; inversion H; subst; exact Hi).
+    destruct e as [src size dec|d|i p id|qid dst q a rated t|qid|a id|bl|]; unfold Server.step.
+    - (* EPacket *)
+      destruct (N.eqb size _); [apply Hsame|].
+      destruct (N.eqb (port src) 0); [apply Hsame|].
+      destruct (s_closed s); [apply Hsame|].
+      destruct (blocked _ _); [apply Hsame|].
+      destruct dec as [m|]; [|apply Hsame]. cbn [wf_event] in Hwf. destruct Hwf as (Hsrc & Hm).
+      destruct (bytes_eqb (m_y m) s_q).
+      + destruct (handle_query s src m ch) as [s1 o| |] eqn:Hq; try discriminate.
+        intros H; inversion H; subst. eapply handle_query_inv; eassumption.
+      + destruct (find _ _) as [x|]; [|apply Hsame].
+        destruct (update_node _ _ _ _ _ _) as [[s2 r]|] eqn:Hu; [|discriminate].
+        apply update_node_inv in Hu;
+          [|exact Hc|apply (Inv_ext s); [reflexivity|reflexivity|exact Hi]|exact Hsrc|apply sender_id_bound; exact Hm].
+        destruct Hu as (Hi2 & _).
+        destruct r; try discriminate; intros H'; inversion H'; subst; assumption.
+    - intros H; inversion H; subst. apply (Inv_ext s); [reflexivity|reflexivity|exact Hi].
+    - (* EAddNode *)
+      cbn [wf_event] in Hwf. destruct Hwf as (Hip & Hid).
+      destruct (update_node _ _ _ _ _ _) as [[s1 r]|] eqn:Hu; [|discriminate].
+      apply update_node_inv in Hu; [|exact Hc|exact Hi|exact Hip|intros j Hj; inversion Hj; subst; exact Hid].
+      destruct Hu as (Hi1 & _).
+      destruct r; try discriminate; intros H'; inversion H'; subst; assumption.
+    - (* EQueryStart *)
+      cbv zeta.
+      destr; intros H; try discriminate H; inversion H; subst; clear H;
+        (apply (Inv_ext s); [reflexivity|reflexivity|exact Hi]).
+    - destruct (existsb _ _); [|apply Hsame].
+      intros H; inversion H; subst. apply (Inv_ext s); [reflexivity|reflexivity|exact Hi].
+    - (* EFailedPing *)
+      cbn [wf_event] in Hwf. destruct Hwf as (Hip & Hid).
+      destruct (update_node _ _ _ _ _ _) as [[s1 r]|] eqn:Hu; [|discriminate].
+      apply update_node_inv in Hu; [|exact Hc|exact Hi|exact Hip|intros j Hj; inversion Hj; subst; exact Hid].
+      destruct Hu as (Hi1 & _).
+      intros H'; inversion H'; subst; assumption.
+    - intros H; inversion H; subst. apply (Inv_ext s); [reflexivity|reflexivity|exact Hi].
+    - intros H; inversion H; subst. apply (Inv_ext s); [reflexivity|reflexivity|exact Hi].
+  Qed.
+
+  Theorem inv_reachable : wf_cfg -> forall s, reachable s -> Inv s.
+  Proof.
+    intros Hc s. induction 1 as [st now bl budget|s e ch s' out _ IH Hwf Hs]; [apply inv_init|].
+    eapply inv_step; eassumption.
+  Qed.
+End ServerInv.
